@@ -14,8 +14,8 @@ def policies(tier):
            ("AM", "cvrp", lambda: AttentionModelPolicy(env_name="cvrp", embed_dim=32, num_encoder_layers=1, num_heads=2)),
            ("AM", "op", lambda: AttentionModelPolicy(env_name="op", embed_dim=32, num_encoder_layers=1, num_heads=2)),
            ("AM", "pdp", lambda: AttentionModelPolicy(env_name="pdp", embed_dim=32, num_encoder_layers=1, num_heads=2))]
-    if tier != "quick":
-        for e in ("pctsp", "sdvrp", "cvrptw", "atsp", "mtsp", "spctsp", "svrp"):
+    for e in (("pctsp", "sdvrp", "cvrptw", "mtsp") if tier == "quick" else ("pctsp", "sdvrp", "cvrptw", "mtsp", "spctsp", "svrp")):
+        if True:
             out.append(("AM", e, (lambda e=e: AttentionModelPolicy(env_name=e, embed_dim=32, num_encoder_layers=1, num_heads=2))))
     # PointerNetwork has its own forward loop (no encoder/decoder split): not covered by the reference loop
     try:
